@@ -336,6 +336,57 @@ class C14(SimCheck):
         return "\n".join(("failat all" if l.startswith("failat") else l) for l in text.split("\n"))
 
 
+CONF_ASSUME = ["library variant 'sim' (no threads: ares_reinit is synchronous), ASan+UBSan, allocation ledger as per-case leak oracle, 10 s CPU watchdog per case as the hang oracle",
+               "system files outside the harness's control (/etc/nsswitch.conf, /etc/hosts of the sandbox) are read by both members of every compared pair alike",
+               "channel fields are read through the internal header (as test/ares-test-internal.cc does) in addition to ares_save_options / ares_get_servers_csv"]
+
+
+class ConfCheck(Check):
+    harnesses = ["conf_rc"]
+    replay_binary = "conf_rc"
+    assumptions = CONF_ASSUME
+    PLAN_QUICK = []
+    PLAN_THOROUGH = []
+
+    def jobs(self, tier, seed, excludes):
+        jobs = []
+        k = 0
+        for (mode, workers, cases, size) in (self.PLAN_QUICK if tier == "quick" else self.PLAN_THOROUGH):
+            for w in range(workers):
+                jobs.append(("conf_rc", [mode], {}, rc_params(seed * 1000 + k, cases, size, noshrink=True)))
+                k += 1
+        return jobs
+
+
+class C15(ConfCheck):
+    pid = "C15"
+    rule = ("metamorphic pairs per configuration source: a list of grammar-valid directive lines (resolv.conf: nameserver incl. bracketed/port forms, search, domain, options ndots/timeout/attempts/"
+            "retrans/retry/rotate, sortlist with numeric and dotted masks, lookup; nsswitch.conf hosts:, netsvc/svc.conf hosts=, hosts file, HOSTALIASES file) and the same list with 1-4 junk lines "
+            "inserted at generated positions - unknown keywords, comments, binary or 700-byte tokens, and known keywords with malformed values (timeout:0, ndots:abc, ndots:-1, 20-digit numbers, "
+            "nameserver with bad address/port, sortlist x/99, empty values) - plus RES_OPTIONS / LOCALDOMAIN; oracle: both initialise, the effective configuration (every channel field, servers "
+            "csv, lookups; hosts and alias lookups for those kinds) is identical, values within range (tries, timeout >= 1 and <= INT_MAX, lookups in {b,f}, sortlist masks <= 32/128, servers "
+            "present), no sanitizer report, ledger empty, no hang. Arbitrary strings through ares_set_sortlist, ares_set_servers_csv / _ports_csv and the options-string parser: error or in-range "
+            "configuration, a failed setter changes nothing. non-trivial = at least one valid and one junk line (pairs) or a non-empty string; distinct = distinct case text")
+    required_counters = ["c15.resolv_pairs", "c15.nss_pairs", "c15.svc_pairs", "c15.hosts_pairs", "c15.hosts_hits", "c15.aliases_pairs", "c15.alias_hits", "c15.sortlist_accepted", "c15.sortlist_rejected", "c15.csv_accepted", "c15.csv_rejected", "c15.options_strings"]
+    PLAN_QUICK = [("C15-resolv", 6, 6000, 100), ("C15-nss", 1, 5000, 100), ("C15-svc", 1, 5000, 100), ("C15-hosts", 2, 4000, 100), ("C15-aliases", 1, 4000, 100), ("C15-sortlist", 1, 6000, 100), ("C15-csv", 2, 6000, 100), ("C15-options", 1, 8000, 100)]
+    PLAN_THOROUGH = [("C15-resolv", 6, 400000, 150), ("C15-nss", 1, 200000, 100), ("C15-svc", 1, 200000, 100), ("C15-hosts", 2, 200000, 150), ("C15-aliases", 1, 200000, 100), ("C15-sortlist", 1, 300000, 150), ("C15-csv", 2, 300000, 150), ("C15-options", 1, 400000, 150)]
+
+
+class C16(ConfCheck):
+    pid = "C16"
+    rule = ("generated application configurations: 2-10 of the 18 ares_init_options settings (flags, timeout in both forms, tries, ndots, maxtimeout, udp/tcp port, rotate/norotate, ednspsz, udpmax, "
+            "qcache, failover, lookups, domains, sortlist, IPv4 servers) incl. the zero / negative values documented as 'use default', 0-2 server lists through ares_set_servers_csv, "
+            "_ports_csv, ares_set_servers and ares_set_servers_ports (IPv4 / IPv6, default, equal and differing UDP/TCP ports, dns:// form), ares_set_sortlist, local ip4/ip6/device, combined with "
+            "a generated resolv.conf, RES_OPTIONS / LOCALDOMAIN and optionally an ares_reinit after the file was replaced; oracle: every value the application supplied (and initialisation accepted) "
+            "is the channel's value after init and after reinit; ares_get_servers_csv fed to ares_set_servers_ports_csv on a fresh channel reproduces itself; ares_dup gives identical effective "
+            "settings, server list and local bindings; ares_save_options + ares_init_options gives an identical channel (servers only where the legacy structure can express them) and saving "
+            "again gives the same option mask. After a reinit with a changed file only application-supplied fields are compared (a duplicate re-reads the current file). "
+            "non-trivial = option mask with >= 5 bits and a resolv.conf or a server needing the bracketed / dns:// form; distinct = distinct case text")
+    required_counters = ["c16.server_sets_applied", "c16.reinits", "c16.csv_round_trips", "c16.dups_compared", "c16.save_init_compared"]
+    PLAN_QUICK = [("C16-c16", 14, 5000, 100)]
+    PLAN_THOROUGH = [("C16-c16", 14, 400000, 150)]
+
+
 class C17(SimCheck):
     pid = "C17"
     rule = ("1-3 servers with cookie behaviours {none, valid, changing server cookie, wrong client part, client-part only} that can change mid-run, BADCOOKIE replies, source-address changes, "
@@ -347,4 +398,4 @@ class C17(SimCheck):
     required_counters = ["c17.server_cookie_echo_checks", "c17.timer_crossings"]
 
 
-CHECKS = {"C14": C14, "C17": C17, "C09": C09, "C12": C12, "C13": C13, "C08": C08, "C19": C19, "C02": C02, "C03": C03, "C04": C04, "C18": C18, "C01": C01, "C05": C05, "C06": C06, "C07": C07, "C10": C10, "C20": C20}
+CHECKS = {"C15": C15, "C16": C16, "C14": C14, "C17": C17, "C09": C09, "C12": C12, "C13": C13, "C08": C08, "C19": C19, "C02": C02, "C03": C03, "C04": C04, "C18": C18, "C01": C01, "C05": C05, "C06": C06, "C07": C07, "C10": C10, "C20": C20}
